@@ -8,15 +8,16 @@ package eval
 //@ define isErr(o) = isType(o, object.Error)
 
 //@ func (*State).NewError
-//@   modifies *
+//@   modifies heap
 //@   nosafety
 //@   ensures  result.Value == msg
+//@   ensures  frame:: frame(s)
 //@   property C01 C07
 
 //@ func (*State).evalIntegerInfixExpression
 //@   arith bv
 //@   requires s != nil
-//@   modifies *
+//@   modifies heap
 //@   maypanic would exceed memory
 //@   ensures  plus:: implies(operator == token.PLUS, isInt(result) && intVal(result) == leftVal + rightVal)
 //@   ensures  minus:: implies(operator == token.MINUS, isInt(result) && intVal(result) == leftVal - rightVal)
@@ -32,6 +33,7 @@ package eval
 //@   ensures  xor:: implies(operator == token.BITXOR, isInt(result) && intVal(result) == leftVal ^ rightVal)
 //@   ensures  badrange:: implies(operator == token.COLON && rightVal < leftVal, isErr(result))
 //@   ensures  unknown:: implies(operator != token.PLUS && operator != token.MINUS && operator != token.ASTERISK && operator != token.SLASH && operator != token.PERCENT && operator != token.LEFTSHIFT && operator != token.RIGHTSHIFT && operator != token.BITAND && operator != token.BITOR && operator != token.BITXOR && operator != token.COLON, isErr(result))
+//@   ensures  frame:: frame(s)
 //@   property C01 C07
 
 //@ define isFloat(o) = isType(o, object.Float)
@@ -61,38 +63,41 @@ package eval
 //@ func (*State).evalFloatInfixExpression
 //@   arith bv
 //@   nosafety
-//@   modifies *
+//@   modifies heap
 //@   ensures  plus:: implies(operator == token.PLUS && numeric(left) && numeric(right), isFloat(result) && same(floatVal(result), numFloat(left) + numFloat(right)))
 //@   ensures  minus:: implies(operator == token.MINUS && numeric(left) && numeric(right), isFloat(result) && same(floatVal(result), numFloat(left) - numFloat(right)))
 //@   ensures  times:: implies(operator == token.ASTERISK && numeric(left) && numeric(right), isFloat(result) && same(floatVal(result), numFloat(left) * numFloat(right)))
 //@   ensures  quo:: implies(operator == token.SLASH && numeric(left) && numeric(right), isFloat(result) && same(floatVal(result), numFloat(left) / numFloat(right)))
 //@   ensures  nonnumeric:: implies(!numeric(left) && !isReg(left) || !numeric(right) && !isReg(right), isErr(result))
 //@   ensures  unknown:: implies(operator != token.PLUS && operator != token.MINUS && operator != token.ASTERISK && operator != token.SLASH && operator != token.PERCENT, isErr(result))
+//@   ensures  frame:: frame(s)
 //@   property C01
 
 //@ func (*State).evalMinusPrefixOperatorExpression
 //@   arith bv
 //@   nosafety
-//@   modifies *
+//@   modifies heap
 //@   ensures  int:: implies(isInt(right), isInt(result) && intVal(result) == -intVal(right))
 //@   ensures  float:: implies(isFloat(right), isFloat(result) && same(floatVal(result), -floatVal(right)))
 //@   ensures  other:: implies(!isInt(right) && !isFloat(right) && !isReg(right), isErr(result))
+//@   ensures  frame:: frame(s)
 //@   property C01
 
 //@ func (*State).evalBangOperatorExpression
 //@   nosafety
-//@   modifies *
+//@   modifies heap
 //@   requires boolsOK()
 //@   ensures  true:: implies(isType(right, object.Boolean) && right.(object.Boolean).Value, isType(result, object.Boolean) && !result.(object.Boolean).Value)
 //@   ensures  false:: implies(isType(right, object.Boolean) && !right.(object.Boolean).Value, isType(result, object.Boolean) && result.(object.Boolean).Value)
 //@   ensures  nil:: implies(isType(right, object.Null), isType(result, object.Boolean) && result.(object.Boolean).Value)
 //@   ensures  other:: implies(!isType(right, object.Boolean) && !isType(right, object.Null), isErr(result))
+//@   ensures  frame:: frame(s)
 //@   property C01
 
 //@ func (*State).evalPrefixExpression
 //@   arith bv
 //@   nosafety
-//@   modifies *
+//@   modifies heap
 //@   requires boolsOK()
 //@   ensures  plus:: implies(operator == token.PLUS || operator == token.BLOCKCOMMENT, result == right)
 //@   ensures  bitnot:: implies((operator == token.BITNOT || operator == token.BITXOR) && isInt(right), isInt(result) && intVal(result) == -intVal(right) - 1)
@@ -100,6 +105,7 @@ package eval
 //@   ensures  minus:: implies(operator == token.MINUS && isInt(right), isInt(result) && intVal(result) == -intVal(right))
 //@   ensures  bang:: implies(operator == token.BANG && isType(right, object.Boolean), isType(result, object.Boolean) && result.(object.Boolean).Value == !right.(object.Boolean).Value)
 //@   ensures  unknown:: implies(operator != token.PLUS && operator != token.BLOCKCOMMENT && operator != token.BITNOT && operator != token.BITXOR && operator != token.MINUS && operator != token.BANG, isErr(result))
+//@   ensures  frame:: frame(s)
 //@   property C01
 
 //@ define isBool(o) = isType(o, object.Boolean)
@@ -109,9 +115,9 @@ package eval
 //@ func (*State).evalInfixExpression
 //@   arith bv
 //@   nosafety
-//@   modifies *
+//@   modifies heap
 //@   maypanic *
-//@   requires s != nil && boolsOK() && left != nil && right != nil
+//@   requires s != nil && boolsOK() && object.wfVal(left) && object.wfVal(right)
 //@   ensures  eq:: implies(operator == token.EQ, isBool(result) && boolVal(result) == object.Equals(left, right))
 //@   ensures  noteq:: implies(operator == token.NOTEQ, isBool(result) && boolVal(result) == !object.Equals(left, right))
 //@   ensures  gt:: implies(operator == token.GT, isBool(result) && boolVal(result) == (object.Cmp(left, right) == 1))
@@ -128,6 +134,7 @@ package eval
 //@   ensures  mixedplus:: implies(operator == token.PLUS && numeric(left) && numeric(right) && (isFloat(left) || isFloat(right)), isFloat(result) && same(floatVal(result), numFloat(left) + numFloat(right)))
 //@   ensures  mixedquo:: implies(operator == token.SLASH && numeric(left) && numeric(right) && (isFloat(left) || isFloat(right)), isFloat(result) && same(floatVal(result), numFloat(left) / numFloat(right)))
 //@   ensures  boolarith:: implies((operator == token.PLUS || operator == token.MINUS) && isBool(left), isErr(result))
+//@   ensures  frame:: frame(s)
 //@   property C01 C12
 
 //@ define isStr(o) = isType(o, object.String)
@@ -137,29 +144,56 @@ package eval
 
 //@ func evalArrayIndexExpression
 //@   requires object.plain(array) && object.isArr(array) && object.wfArr(array)
-//@   modifies *
+//@   pure
+//@   trustframe
 //@   ensures  inrange:: implies(0 <= normIdx(idx, object.seqLen(array)) && normIdx(idx, object.seqLen(array)) < object.seqLen(array), result == object.seqAt(array, normIdx(idx, object.seqLen(array))))
 //@   ensures  outofrange:: implies(normIdx(idx, object.seqLen(array)) < 0 || normIdx(idx, object.seqLen(array)) >= object.seqLen(array), isNull(result))
 //@   property C01 C07
 
 //@ func (*State).evalIndexExpressionIdx
 //@   requires s != nil && object.wfObj(left) && index != nil
-//@   modifies *
+//@   modifies heap
 //@   maypanic *
 //@   ensures  strin:: implies(isStr(left) && isInt(index) && 0 <= normIdx(intVal(index), len(strVal(left))) && normIdx(intVal(index), len(strVal(left))) < len(strVal(left)), isInt(result) && intVal(result) == strVal(left)[normIdx(intVal(index), len(strVal(left)))])
 //@   ensures  strout:: implies(isStr(left) && isInt(index) && (normIdx(intVal(index), len(strVal(left))) < 0 || normIdx(intVal(index), len(strVal(left))) >= len(strVal(left))), isNull(result))
 //@   ensures  arrin:: implies(object.isArr(left) && isInt(index) && 0 <= normIdx(intVal(index), object.seqLen(left)) && normIdx(intVal(index), object.seqLen(left)) < object.seqLen(left), result == object.seqAt(left, normIdx(intVal(index), object.seqLen(left))))
 //@   ensures  nil:: implies(isNull(left), isNull(result))
+//@   ensures  frame:: frame(s)
 //@   property C01 C07
 
-// Eval returns an object for every node (never a nil interface): assumed here, see the C07 sweep.
-//@ func (*State).Eval assumed
-//@   modifies *
-//@   ensures  result != nil
+// ---- session frame (C10, C09 depth, C05): every evaluation step returns with the scope, the recursion depth and
+// the output writer it was entered with (normal returns; panics are handled by repl.EvalOne, see C10). ----
+//@ define frame(s) = s.depth == old(s.depth) && s.env == old(s.env) && s.Out == old(s.Out)
+
+//@ func (*State).Eval
+//@   requires s != nil && s.env != nil
+//@   modifies heap
+//@   nosafety
+//@   maypanic max depth
+//@   ensures  @assumed nonnil:: result != nil
+//@   ensures  @assumed wfval:: object.wfVal(result)
+//@   ensures  frame:: frame(s)
+//@   ensures  depthguard:: old(s.depth) <= old(s.MaxDepth)
+//@   property C10 C09 C07
+
+// Verified members of the evaluator family.
+//@ funcs (*State).evalInternal, (*State).evalIfExpression, (*State).evalPostfixExpression
+//@   requires s != nil && s.env != nil
+//@   modifies heap
+//@   nosafety
+//@   maypanic *
+//@   ensures  frame:: frame(s)
+//@   property C10
+
+// Members whose frame clause is assumed for now (not yet verified: see DESIGN.md).
+//@ funcs (*State).evalStatements, (*State).evalForExpression, (*State).evalForInteger, (*State).evalForList, (*State).evalIdentifier, (*State).evalPrefixIncrDecr, (*State).evalAssignment, (*State).evalIndexAssigment, (*State).evalPipe, (*State).evalIndexExpression, (*State).evalMapLiteral, (*State).evalPrintLogError, (*State).evalDelete, (*State).deleteMapEntry, (*State).evalBuiltin, (*State).applyFunction, (*State).evalForSpecialForms, (*State).extendFunctionEnv, (*State).evalExpressions assumed
+//@   requires s != nil
+//@   modifies heap
+//@   ensures  frame:: frame(s)
 
 //@ func (*State).evalIndexRangeExpression
 //@   requires s != nil && object.plain(left) && object.wfArr(left)
-//@   modifies *
+//@   modifies heap
 //@   maypanic *
 //@   witness li = callresult after Eval#1
 //@   witness ri = callresult after Eval#2
@@ -167,16 +201,19 @@ package eval
 //@   ensures  notint:: implies(!isInt(li) && !isReg(li), isErr(result))
 //@   ensures  badorder:: implies(isStr(left) && isInt(li) && rightIdx != nil && isInt(ri) && ite(intVal(li) < 0, max(intVal(li) + len(strVal(left)), 0), intVal(li)) > normIdx(intVal(ri), len(strVal(left))), isErr(result))
 //@   ensures  negslice:: implies(isStr(left) && isInt(li) && rightIdx != nil && isInt(ri) && intVal(li) < 0 && intVal(ri) < 0 && -len(strVal(left)) <= intVal(li) && intVal(li) <= intVal(ri), isStr(result) && strVal(result) == strVal(left)[intVal(li)+len(strVal(left)):intVal(ri)+len(strVal(left))])
+//@   ensures  frame:: frame(s)
 //@   property C01 C07
 
 // applyExtension: what every extension callback may rely on (argument count within [MinArgs, MaxArgs]).
 //@ func (*State).applyExtension
 //@   requires s != nil && s.env != nil
-//@   modifies *
+//@   modifies heap
 //@   nosafety
 //@   maypanic *
 //@   dyncall Callback requires mincount:: len(arg2) >= fn.MinArgs
 //@   dyncall Callback requires maxcount:: fn.MaxArgs == -1 || len(arg2) <= fn.MaxArgs
+//@   dyncall Callback ensures s.depth == old(s.depth) && s.env == old(s.env) && s.Out == old(s.Out) && result != nil
+//@   ensures  frame:: frame(s)
 //@   property C07
 
 // Operators that grow strings / arrays: every allocation whose size is a program value must be covered by the
@@ -184,14 +221,22 @@ package eval
 //@ func (*State).evalStringInfixExpression
 //@   overflow
 //@   requires s != nil && isStr(left) && right != nil
-//@   modifies *
+//@   modifies heap
 //@   maypanic would exceed memory
+//@   ensures  frame:: frame(s)
 //@   property C09 C07
 
 //@ func (*State).evalArrayInfixExpression
 //@   overflow
-//@   requires s != nil && object.wfObj(left) && object.isArr(left) && object.wfObj(right)
-//@   modifies *
+//@   requires s != nil && object.plain(left) && object.wfVal(left) && object.isArr(left) && object.wfVal(right)
+//@   modifies heap
 //@   maypanic would exceed memory
 //@   loop 1 invariant cap(result) == n && n == len(leftVal) * rightVal && len(result) == rangeint_iter * len(leftVal) && 0 <= rangeint_iter && rangeint_iter < rightVal && len(leftVal) > 0
+//@   ensures  frame:: frame(s)
 //@   property C09 C07
+
+//@ func (*State).Stack
+//@   pure
+//@   trustframe
+//@   nosafety
+//@   property C10
